@@ -132,6 +132,7 @@ predicate:
 		$$, err = ast.NewRegex($1, $3, "")
 		if err != nil {
 			pathlex.Error(err.Error())
+			$$ = $1 // keep a node in place of the invalid one
 		}
 	}
 	| expr LIKE_REGEX_P STRING_P FLAG_P STRING_P
@@ -140,6 +141,7 @@ predicate:
 		$$, err = ast.NewRegex($1, $3, $5)
 		if err != nil {
 			pathlex.Error(err.Error())
+			$$ = $1 // keep a node in place of the invalid one
 		}
 	}
 	;
@@ -220,6 +222,7 @@ accessor_op:
 				$$ = ast.NewBinary(ast.BinaryDecimal, $4[0], $4[1])
 			default:
 				pathlex.Error("invalid input syntax: .decimal() can only have an optional precision[,scale]")
+				$$ = ast.NewBinary(ast.BinaryDecimal, nil, nil) // keep a node in place of the invalid one
 			}
 		}
 	| '.' DATE_P '(' ')' { $$ = ast.NewUnary(ast.UnaryDate, nil) }
